@@ -287,6 +287,8 @@ class Alg:
                 return a * b
             if op == "/":
                 if typeof(e["l"], self.tenv) == "int" and typeof(e["r"], self.tenv) == "int":
+                    if getattr(a, "is_Integer", False) and getattr(b, "is_Integer", False) and b != 0 and a >= 0 and b > 0:
+                        return sp.Integer(int(a) // int(b))       # constant folding of a literal integer division
                     return idiv_f(a, b)
                 return a / b
             if op == "%":
